@@ -296,7 +296,11 @@ func (e *explorer) expandState(s *slot, st state, alpha string, final bool) (suc
 			e.excused.Add(sm)
 		}
 		for _, v := range res.Viols {
-			path := append(append([]Op{}, st.path...), ops[v.I])
+			last := ops[v.I]
+			if v.Op != nil {
+				last = *v.Op
+			}
+			path := append(append([]Op{}, st.path...), last)
 			e.violation(v.Tags, v.Msg, makeCase(cfg, st.init, path))
 		}
 		if extra := res.NViol - len(res.Viols); extra > 0 {
@@ -601,7 +605,7 @@ func main() {
 	c := e.ctr
 	exhaustive := !e.timedOut.Load() && !e.stop.Load() && c.NotExecuted == 0
 	if run.NumViolations() == 0 && len(e.harnessErrs) == 0 && !e.timedOut.Load() {
-		if c.SideChecks < 1000 || c.BuiltinPairs < 1000 || c.StarChecks < 100 || c.ReplacePos < 50 || c.RemoveExisting < 50 || c.ReRegistered < 50 || c.DupRegistrations < 50 || c.Errors < 10 || hc['O'] < 100 || c.StubsFired < 1000 || c.FreshChecks < 10 {
+		if c.SideChecks < 1000 || c.BuiltinPairs < 1000 || c.StarChecks < 100 || c.ReplacePos < 50 || c.RemoveExisting < 50 || c.ReRegistered < 50 || c.DupRegistrations < 50 || c.SpellingVariants < 1000 || c.IsolationChecks < 1000 || c.Errors < 10 || hc['O'] < 100 || c.StubsFired < 1000 || c.FreshChecks < 10 {
 			run.HarnessError("vacuous run: side checks %d, built-in pairs %d, star checks %d, replace position checks %d, removes %d, re-registrations %d, errors %d, distinct outcomes %d, stub firings %d, fresh cross-checks %d", c.SideChecks, c.BuiltinPairs, c.StarChecks, c.ReplacePos, c.RemoveExisting, c.ReRegistered, c.Errors, hc['O'], c.StubsFired, c.FreshChecks)
 		}
 	}
@@ -611,6 +615,8 @@ func main() {
 	run.Assume("Before(\"*\")/After(\"*\") is read as: ahead of (behind) every callback that is not itself Before(\"*\") (After(\"*\")) and is not required by a named constraint or the built-in order to precede (follow) such a callback")
 	run.Assume("registrations that contradict each other under the literal reading of \"*\" (one callback Before(\"*\") and After(\"*\"); \"*\" on one side and a registered name on the other; a callback required to follow an After(\"*\") callback or to precede a Before(\"*\") callback) are accepted by gorm without a defined order (its own tests use Before(x).After(\"*\")): for them the \"*\" part of the oracle is not evaluated, everything else is")
 	run.Assume("\"either an error is returned, or\": once a call of the sequence has returned an error, ordering anomalies of the rest of the sequence are counted (order_anomalies_excused...) but not reported; a process death or panic is always reported")
+	run.Assume("spellings: sequences are enumerated with Before(x).After(y); at every non-leaf level each Register-family call is additionally executed from the same state as After(y).Before(x), Match(true).Before(x).After(y), Match(true).After(y).Before(x) (one-sided: Match(true).Before/After/Register), each checked by the full oracle and required to give the same error, compiled order and registered list; the builder methods do not read pipeline state, so leaves are run in the canonical spelling only")
+	run.Assume("isolation: per pipeline a second DB opened with its own Config and a third opened with the first DB's *Config value; after every call their pipelines must be unchanged; at non-leaf levels the same call is also issued on those DBs (first DB must be unchanged) and Session/WithContext/Debug handles must return the same callbacks manager")
 	run.Assume("states below a violating or process-killing call are not expanded")
 	run.Assume("states are restored by writing a saved copy of processor.callbacks/fns back through unsafe mirrors (layout verified by reflection at start-up); every 499th transition and every reported violation is re-executed on a freshly opened gorm and compared")
 	skipped := map[string]int{}
